@@ -182,7 +182,17 @@ func (te *tableEngine) CreateTable(tableSetting TableSetting) (*Table, error) {
 		OnOpenGameReady: func(state open_game_manager.OpenGameState) {
 			// 小於等於一個人，不開局
 			if len(state.Participants) <= 1 {
-				return
+				// ... unless other seated-in players with chips have arrived or re-bought since the
+				// set-up was made: the table is neither paused nor would it ever be set up again
+				ready := 0
+				for _, player := range te.table.State.PlayerStates {
+					if player.IsIn && player.Bankroll > 0 {
+						ready++
+					}
+				}
+				if ready <= 1 {
+					return
+				}
 			}
 
 			// 大於一個人，開局
